@@ -140,7 +140,7 @@ func (r *Runner) execCallVals(st *State, f *Frame, common *ssa.CallCommon, fnv V
 		r.contractCall(st, f, sp, callee, callee.Signature, args, res, pos)
 		return
 	}
-	if len(callee.Blocks) > 0 && f.depth < r.maxInl && !r.onStack(st, callee) && callee.Recover == nil {
+	if len(callee.Blocks) > 0 && f.depth < r.maxInl && !r.onStack(st, callee) {
 		nf := r.newFrame(callee, f.depth+1)
 		nf.callIn = in
 		if res == nil {
